@@ -6,7 +6,7 @@ import os
 
 KEYWORDS = {"": 0, "framer": 1, "me": 2, "main": 3, "frame": 4, "actor": 5}
 
-INODES = ["", "", "top", "me.a", "mb.", "me", ".abs", "framer.me.z", "p.q", "me.w.v", "framer.me.frame.me.k"]
+INODES = ["", "", "", "", "top", "pop", "me.a", "mb.", "me", ".abs", "framer.me.z", "p.q", "me.w.v", "framer.me.frame.me.k"]
 LITS = ["alpha", "beta", "gamma", "delta"]
 
 
@@ -109,6 +109,10 @@ def gen_program(rng, names=None):
                 out.append(("do", via(), "me." + m))
             else:
                 out.append(("put", T[st][0], T[st][1]))
+        # `do` ioinit references: always one without and one with a do-level via (the default actor
+        # inode applies only when neither act, over frames nor framers contribute an inode)
+        out.append(("do", "", marker()))
+        out.append(("do", via(), rng.choice(["", "me."]) + marker()))
         # implicit framer-state needs: go <frame> if elapsed/recurred <cmp> value | goal [+- tol]
         for _ in range(rng.randint(1, 3)):
             out.append(("need", rng.choice(["elapsed", "recurred"]), rng.choice(["value", "goal", "goaltol"]),
@@ -391,6 +395,8 @@ def put_refs(spec):
             for r in f["refs"]:
                 if r[0] == "put":
                     out[r[1].split(".")[-1]] = (r[1], r[2])
+                elif r[0] == "do":
+                    out[r[2].split(".")[-1]] = (r[2], None)
                 elif r[0] == "need":
                     out["need|%s|%d|state" % (f["name"], k)] = ("framer.me.state.%s" % r[1], None)
                     if r[2] != "value":
@@ -426,8 +432,22 @@ def need_destinations(builder, names):
     return out
 
 
+def do_destinations(builder):
+    """marker -> [(act, share name)] for the `per color <path>` ioinit of every resolved `do doer param`"""
+    from ioflo.base import storing
+    out = {}
+    for act in all_acts(builder):
+        if isinstance(act.frame, str) or type(act.actor).__name__ != "DoerParam" or not act.parms:
+            continue
+        d = act.parms.get("color")
+        if isinstance(d, storing.Share):
+            out.setdefault(d.name.split(".")[-1], []).append((act, d.name))
+    return out
+
+
 def all_destinations(builder, names):
     out = dict(poke_destinations(builder))
+    out.update(do_destinations(builder))
     out.update(need_destinations(builder, names))
     return out
 
